@@ -16,7 +16,8 @@
    which 4  overlapping saves case = (table ((#stream off) ...)-per-job K)          obs = ((loadres (done_j ...)) ...)
               K goroutines each loop { commit the next offset of one of their jobs; save } on ONE offsetDB while a
               checker keeps loading the file; done_j = commits of job j finished when the checker sampled them
-              AFTER its read; the last element is read after everything has stopped *)
+              AFTER its read; the last element is read after everything has stopped
+   which 5  table sequence    case = (table ...)              obs = ((#filebytes loadres) ...)   one offsetDB instance *)
 From Verif Require Import Base.Sx Base.GoSem Model.OffsetsFmt Model.FsCrash Model.OffsetsSnap Gen.SaveProtocol.
 
 (* ---- decoding ------------------------------------------------------------------------------------ *)
@@ -333,8 +334,39 @@ Definition c07_overlap (case obs : sx) : verdict :=
   | _, _ => BadCase
   end.
 
+(* ---- which 5: a SEQUENCE of tables saved one after the other by ONE offsetDB instance ------------------ *)
+(* case = (table_0 table_1 ...)   obs = ((#filebytes_0 loadres_0) (#filebytes_1 loadres_1) ...)
+   The harness swaps the job table of one provider (what addJob / deleteJobAndUnlock do over time) and calls
+   the real save after every swap: o.buf (64 KiB initial capacity, reset per save) and o.jobsSnapshot are
+   reused, a save larger than the buffer is followed by a smaller one and vice versa. Every single save is
+   judged exactly like a which-0 round trip of its table; the verdict is the worst one. *)
+Definition worse (a b : verdict) : verdict :=
+  match a, b with
+  | BadCase, _ => a
+  | _, BadCase => b
+  | Violates _, _ => a
+  | _, Violates _ => b
+  | Differ _, _ => a
+  | _, Differ _ => b
+  | Agree, Agree => Agree
+  end.
+
+Fixpoint c07_seq (cases obs : list sx) : verdict :=
+  match cases, obs with
+  | [], [] => Agree
+  | c :: cr, o :: or => worse (c07_roundtrip c o) (c07_seq cr or)
+  | _, _ => Violates (SL [SZ (Z.of_nat (length cases)); SZ (Z.of_nat (length obs))])   (* a save is missing: the real code panicked *)
+  end.
+
+Definition c07_sequence (case obs : sx) : verdict :=
+  match case, obs with
+  | SL (c :: cr), SL ol => c07_seq (c :: cr) ol
+  | _, _ => BadCase
+  end.
+
 Definition c07_entry (which : Z) (case obs : sx) : verdict :=
   match which with
+  | 5 => c07_sequence case obs
   | 0 => c07_roundtrip case obs
   | 1 => c07_parse case obs
   | 2 => c07_fault case obs
